@@ -83,7 +83,7 @@ def spec_to_code(report, module, cfg_text, replayer, opts=(), *, workers_tlc=12,
         report.sample({"direction": "spec->code", "behaviour": sample["h"],
                        "expected_final_state_keys": sorted(sample["st"].keys())}, cap=2)
     for owner, clause, detail, obj in agg["findings"]:
-        file_finding(report, owner, clause, detail, obj, owners)
+        file_finding(report, owner, clause, detail, obj, owners, replayer, opts)
     if simulate:
         report.add("simulated_behaviours", res.traces)
         report.add("simulated_steps_replayed", agg["total"])
@@ -108,7 +108,7 @@ def spec_to_code(report, module, cfg_text, replayer, opts=(), *, workers_tlc=12,
     return res
 
 
-def file_finding(report, owner, clause, detail, obj, owners):
+def file_finding(report, owner, clause, detail, obj, owners, replayer=None, opts=()):
     owners = owners or {report.prop}
     if owner == "machinery":
         raise MachineryError(f"{clause}: {detail}")
@@ -116,7 +116,8 @@ def file_finding(report, owner, clause, detail, obj, owners):
         if detail is None:
             report.add("violations_beyond_cap")
             return
-        report.violation(clause, detail, {"kind": "behaviour", "behaviour": obj})
+        report.violation(clause, detail, {"kind": "behaviour", "replayer": replayer, "opts": sorted(opts),
+                                          "owner": owner, "behaviour": obj})
     elif owner == "mirror":
         report.note(f"mirror-divergence {clause}", sample=None if obj is None else
                     {"detail": detail, "h": obj.get("h")})
@@ -184,7 +185,7 @@ def code_to_spec(report, module, cfg, traces, *, consts=None, timeout=3000, heap
             tr = tr["ev"]
         detail = {"trace": tid, "step": stepno, "clause": clause,
                   "event": (describe or (lambda e: e))(tr[stepno - 1]) if 0 < stepno <= len(tr) else None}
-        obj = {"kind": "trace", "trace": traces[tid - 1], "upto": stepno}
+        obj = {"kind": "trace", "module": module, "cfg": cfg, "trace": traces[tid - 1], "upto": stepno}
         own = owners or {report.prop}
         if owner in own:
             report.violation(clause, detail, obj)
